@@ -5,6 +5,7 @@ A5 summaries, A6 held-resource dataflow, A7 provenance.  Nothing here is specifi
 to one property; rule modules under rules/props use these primitives.
 """
 import json
+import os
 import re
 import sys
 from collections import defaultdict, deque
@@ -183,7 +184,7 @@ class Call:
         return self.t.get('exp', False)
 
     def where(self):
-        return '%s:%d' % (self.fn.file, self.line)
+        return '%s:%d' % (self.fn.src_file, self.line)
 
     def __repr__(self):
         return '<call %s in %s bb%d @%s>' % (self.full, self.fn.id, self.bb, self.where())
@@ -196,6 +197,7 @@ class Fn:
         self.id = j['id']
         self.kind = j['kind']
         self.file = j['file']
+        self.src_file = j.get('file_actual', j['file'])     # differs when a pinned function moved to another file
         self.line = j['line']
         self.end_line = j.get('end_line', j['line'])
         self.argc = j['argc']
@@ -431,7 +433,7 @@ class Fn:
         return self.line
 
     def where(self, bb=None):
-        return '%s:%d' % (self.file, self.line_of(bb) if bb is not None else self.line)
+        return '%s:%d' % (self.src_file, self.line_of(bb) if bb is not None else self.line)
 
     # ---- definitions ---------------------------------------------------
     def defs(self):
@@ -605,7 +607,7 @@ class Program:
         except OSError:
             known = None
         # newly introduced thin helpers are inlined into their callers (never anything on the tree the rules were written for)
-        self.inlined = inline.inline_new_thin(j, known) if known else []
+        self.inlined = inline.inline_new_thin(j, known) if known and not os.environ.get('PEARL_VERIF_PINNING') else []
         self.j = j
         self.nonce = j.get('nonce')
         self.crate = j.get('crate')
